@@ -7,7 +7,10 @@ import (
 
 	"cosmossdk.io/math"
 	sdk "github.com/cosmos/cosmos-sdk/types"
+	authtypes "github.com/cosmos/cosmos-sdk/x/auth/types"
 	banktypes "github.com/cosmos/cosmos-sdk/x/bank/types"
+	distributiontypes "github.com/cosmos/cosmos-sdk/x/distribution/types"
+	stakingtypes "github.com/cosmos/cosmos-sdk/x/staking/types"
 
 	opchildtypes "github.com/initia-labs/OPinit/x/opchild/types"
 	ophosttypes "github.com/initia-labs/OPinit/x/ophost/types"
@@ -109,6 +112,7 @@ func (c *c04) treeWorkload(n int, shape ref.TreeShape) {
 		tc.L1.EnableShadow(uint64(n))
 		tc.L2.EnableShadow(uint64(n))
 	}
+	tc.L1.L1.Speculate, tc.L2.L2.Speculate = n%2 == 0, n%4 < 2
 	depositor := tc.L1.Users[0]
 	// fund three L2 users through real deposits, and create n/4 refunds
 	nRefund := n / 4
@@ -403,6 +407,11 @@ func (c *c04) stringsWorkload(thorough bool) {
 		strings.ToUpper(sim.NewAccount("r20upper").String())} // bech32 may be written all-uppercase; L2 records the string verbatim
 	l2BadRecipients := []string{"0x" + strings.Repeat("ab", 20), "INIT1UPPERCASE", "é中🙂", strings.Repeat("y", 1000), "a\tb", "cosmos1", " "}
 	tc := newTwoChain(3*time.Second, L2EnvOpts{})
+	// L1 module accounts that exist in the auth store are valid recipients as well (L2 burns for any non-empty string)
+	for _, name := range []string{authtypes.FeeCollectorName, distributiontypes.ModuleName, ophosttypes.ModuleName, stakingtypes.BondedPoolName} {
+		l1Recipients = append(l1Recipients, tc.L1.L1.AK.GetModuleAccount(tc.L1.L1.Ctx, name).GetAddress().String())
+	}
+	tc.L1.L1.Speculate = true // every L1 transaction (claims included) is first run on a branch that is thrown away
 	who := tc.L1.Users[2]
 	for _, d := range denoms {
 		tc.L1.L1.Fund(who.Addr, sdk.NewCoin(d, math.NewInt(1_000_000_000)))
@@ -424,7 +433,7 @@ func (c *c04) stringsWorkload(thorough bool) {
 					return
 				}
 			}
-			to := l1Recipients[(round+di)%len(l1Recipients)]
+			to := l1Recipients[(round*len(denoms)+di)%len(l1Recipients)]
 			if r := tc.L2Withdraw(u, to, tc.L2.L2Denom(d), math.NewInt(int64(1+c.rng.Intn(90_000)))); r.Class != sim.OK {
 				run.Fail("C04.l2_withdraw", "c04.l2_withdraw_failed", []string{d, to}, "L2 withdrawal failed: %s", r.ErrString())
 			}
